@@ -231,7 +231,9 @@ def nw_jobs(tier):
             if tier != "quick":
                 pairs += [(16383, 16383), (65535, 0), (0, 65535), (70000, 70000)]
         for i0, i1 in pairs:
-            fits = (i0 <= 0x3FFF) if ne == 1 else (i0 <= 0x3FFF or i1 <= 0x3FFF)
+            def matches(e):
+                return cn == e or cn.endswith("." + e)
+            fits = any(matches(e) and i <= 0x3FFF for e, i in list(zip([e0, e1], [i0, i1]))[:ne])
             w = ["end"] + (["pointer"] if (wit == ["pointer"] and fits) else [])
             J.append(dict(name="name_write_offsets_%s_%d_%d" % (nm, i0, i1), harness="name_write_offsets.c",
                           kf_group="name_write_offsets",
@@ -336,6 +338,13 @@ def cb_jobs(tier):
 
 
 def jobs(tier, seed):
+    J = all_jobs(tier, seed)
+    for j in J:
+        j.setdefault("mem_gb", 6)
+    return J
+
+
+def all_jobs(tier, seed):
     J = []
     J += cb_jobs(tier)
     J += leg_jobs(tier)
